@@ -86,6 +86,14 @@ class ToGFA2:
         "Length of segment {} unknown".format(self.to_segment.name))
     return gfapy.LastPos(length)
 
+  def _end_position(self, value, field):
+    """value, marked as last position ($) if it is the length of the segment"""
+    line = getattr(self, field)
+    if isinstance(line, gfapy.Line) and line.length is not None and \
+        value == line.length:
+      return gfapy.LastPos(value)
+    return value
+
   def _check_overlap(self):
     if isinstance(self.overlap, gfapy.Placeholder):
       raise gfapy.ValueError(
